@@ -1,7 +1,7 @@
 (* Properties/C07.v — union stacks rows by column name; distinct removes duplicates. *)
 From Coq Require Import List String NArith ZArith Bool.
 From PDT Require Import Base.StableSort Model.Dtype Model.Value Model.Ops Model.Expr Model.RefSem
-     Model.SqlCompile Proofs.JoinUnionLemmas Proofs.SqlCompileLemmas.
+     Model.SqlCompile Model.PlCompile Proofs.JoinUnionLemmas Proofs.SqlCompileLemmas Proofs.PlCompileLemmas.
 From PDTGen Require Import Catalogue.
 Import ListNotations.
 Open Scope list_scope.
@@ -41,13 +41,23 @@ Theorem sql_union_is_the_reference : forall d l r distinct c,
 Proof. intros d l r distinct c C F. apply (sql_compile_correct_proof d (Union l r distinct) c C F). Qed.
 Print Assumptions sql_union_is_the_reference.
 
+(* Polars: the transcription of the Union branch of the Polars compile_ast - both frames projected onto the
+   left operand's visible column names (the right frame's columns are picked BY NAME), stacked, deduplicated
+   for distinct=True, hidden columns dropped from the frame and from name_in_df - exports the reference
+   table, for all data and any operand pipelines of the fragment *)
+Theorem polars_union_is_the_reference : forall d l r distinct st,
+  pl_compile d (Union l r distinct) = Some st -> pflat_ok d (Union l r distinct) = true ->
+  pl_export st = export_ref (do_union (sem_ref d l) (sem_ref d r) distinct).
+Proof. intros d l r distinct st C F. apply (pl_compile_correct_proof d (Union l r distinct) st C F). Qed.
+Print Assumptions polars_union_is_the_reference.
+
 (* permuted column order on the right, nulls compare equal for distinct *)
 Example union_example :
   let d := [("l"%string, [[VInt 1; VNull]; [VInt 1; VNull]]); ("r"%string, [[VNull; VInt 1]; [VInt 7; VInt 2]])] in
   let a := Union (Source "l" [("a"%string, 1%N); ("b"%string, 2%N)])
                  (Source "r" [("b"%string, 3%N); ("a"%string, 4%N)]) true in
   f_rows (export_ref (sem_ref d a)) = [[VInt 1; VNull]; [VInt 2; VInt 7]]
-  /\ flat_ok a = true
+  /\ flat_ok a = true /\ pflat_ok d a = true
   /\ flat_ok (Summarize (Union (Filter (Source "l" [("a"%string, 1%N); ("b"%string, 2%N)])
                                        [EFn Op_is_not_null [ECol 1%N] false [] []])
                                (Union (Source "r" [("b"%string, 3%N); ("a"%string, 4%N)])
